@@ -522,14 +522,17 @@ def m_equal(real_m: str, drv_m: str, tol: float = TOL_MODEL) -> bool:
 
 
 def compare_case(case, real, resp):
+    """first disagreement with the specification stream if there is one (the specification stream does not depend on the
+    attribute values, so it stays meaningful after the code-shaped model has diverged), else the first with the model"""
     tol = DTYPES[case_dtype(case)][1]
+    first_model = None
     for i, ((rm, rs), line) in enumerate(zip(real, resp)):
         dm, ds = seqcheck.split_resp(line)
         if rs != ds:
             return (i, "spec", ds, rs)
-        if not m_equal(rm, dm, tol):
-            return (i, "model", dm, rm)
-    return None
+        if first_model is None and not m_equal(rm, dm, tol):
+            first_model = (i, "model", dm, rm)
+    return first_model
 
 
 def shrink_case(ctx, case, kind, max_tries=80):
@@ -578,7 +581,7 @@ def run_cases(ctx, cases, ex: Exploration, max_findings=8):
     reals = [seqcheck.exec_real(Real, c) for c in cases]
     resp = ctx.run_driver(DRIVER, drv_lines(flat))
     pos = 0
-    nfound = 0
+    nfound = {"spec": 0, "model": 0}
     for case, real in zip(cases, reals):
         r = resp[pos:pos + len(case)]
         pos += len(case)
@@ -594,8 +597,8 @@ def run_cases(ctx, cases, ex: Exploration, max_findings=8):
             continue
         if any(x.startswith("harness-exception") for x in (d[2], d[3])) or "bad-op" in d[2]:
             raise RuntimeError(f"harness/driver protocol failure on {case[:d[0] + 1]}: {d}")
-        nfound += 1
-        if nfound > max_findings:
+        nfound[d[1]] += 1                  # capped per kind: model-only disagreements must not crowd out failing inputs
+        if nfound[d[1]] > max_findings:
             continue
         small = shrink_case(ctx, case[: d[0] + 1], d[1])
         real2 = seqcheck.exec_real(Real, small)
